@@ -360,7 +360,8 @@ InlineBody(t, i, s, ps) ==
           LET r == Inline(ps2, <<s, b + 1>>)
               kr == [j \in 1..Len(ps2) |->
                        [reg |-> <<ps2[j].path[1].sp[1], ps2[j].path[Len(ps2[j].path)].sp[2]>>,
-                        names |-> [x \in 1..Len(ps2[j].path) |-> ps2[j].path[x].s]]]
+                        names |-> [x \in 1..Len(ps2[j].path) |-> ps2[j].path[x].s],
+                        last |-> ps2[j].path[Len(ps2[j].path)].sp]]      \* token of the pair's own (last) key
           IN IF r.ok THEN Ok(b + 1, [r.v EXCEPT !.kr = kr]) ELSE Fail(i)
         ELSE Fail(b)
 
